@@ -59,6 +59,12 @@ class OtherAnn:
 
     @classmethod
     def get(cls, k):
+        """k >= 100: a NON-token annotation value that merely EQUALS a syntax token (Token is an IntEnum):
+        the plain int k - 99 (100 -> 1 ... 113 -> 14), 99: True"""
+        if k == 99:
+            return True
+        if 100 <= k <= 113:
+            return k - 99
         if k not in cls._cache:
             cls._cache[k] = cls(k)
         return cls._cache[k]
@@ -118,6 +124,10 @@ def ann_out(a):
         return 'tok:%d' % int(a)
     if isinstance(a, OtherAnn):
         return 'oth:%d' % a.k
+    if a is True:
+        return 'oth:99'
+    if type(a) is int:
+        return 'oth:%d' % (a + 99)
     val = getattr(a, 'value', None)
     if isinstance(val, str):
         return 'com:' + ','.join(str(ord(c)) for c in val)
